@@ -97,11 +97,19 @@ func TestConservationChain(t *testing.T) {
 			suicideInBlock := false
 			for i := 0; i < ntx; i++ {
 				var g *chainsim.Tx
-				class := rapid.IntRange(0, 9).Draw(t, "class")
+				class := rapid.IntRange(0, 12).Draw(t, "class")
 				if b == 0 && i < 2 {
 					class = 0 // seed the confidential pool early so later blocks can spend from it
 				}
 				switch class {
+				case 10:
+					// a non-native token enters the confidential pool (its fee is paid in the native coin) ...
+					g = s.GenTokenDeposit(t)
+				case 11, 12:
+					// ... and moves on or leaves it again; a generated account signs and pays the fee
+					if g = s.GenTokenSpend(t); g == nil {
+						g = s.GenTokenDeposit(t)
+					}
 				case 0, 1:
 					g = s.GenA2U(t)
 				case 2, 3, 4, 5:
@@ -131,7 +139,7 @@ func TestConservationChain(t *testing.T) {
 					if g.InnerTo != "" {
 						vstat.Label("admitted_" + g.Kind + "_reaching_" + g.InnerTo)
 					}
-					if g.Kind == "a2u" || g.Kind == "u2a" || g.Kind == "u2mix" {
+					if g.Kind == "a2u" || g.Kind == "u2a" || g.Kind == "u2mix" || g.Kind == "token-a2u" || g.Kind == "token-u2a" || g.Kind == "token-u2mix" {
 						crossings++
 					}
 					if (g.Kind == "call-revert" || g.Kind == "call-fwdrevert" || g.Kind == "call-killrevert") && g.Tx.(*types.Transaction).Value().Sign() > 0 {
